@@ -57,7 +57,7 @@ PROFILES = {
     "C15": {"wide_rate": 0.0, "w": _p(op1=14, opx=10, mk_op=4, struct=4, measure=1, kraus=2), "clients": (1, 2), "fault_rate": 0.0, "reuse": True},
     "C17": {"w": _p(fault=0), "clients": (1, 2), "fault_rate": 0.25},
     "C18": {"wide_rate": 0.0, "w": _p(measure=12, mk_ce=4, struct=6, trace_out=4, opx=10, op1=5, kraus=3, povm=2, resize=2), "clients": (1, 2), "fault_rate": 0.0, "equal_values": True, "min_envs": 3},
-    "C20": {"w": _p(mk_ce=3, opx=9, kraus=4, povm=3, measure=6, trace_out=6, resize=2, struct=10), "struct_bias": "level", "clients": (2, 2), "fault_rate": 0.0, "min_envs": 3},
+    "C20": {"w": _p(mk_ce=3, opx=9, kraus=4, povm=3, measure=6, trace_out=6, resize=2, struct=10), "struct_bias": "level", "clients": (2, 2), "fault_rate": 0.1, "faults": ["kraus_not_tp", "kraus_wrong_shape", "povm_wrong_shape", "wrong_kind", "outside_container"], "min_envs": 3},
     "ALL": {"w": _p(fault=0), "clients": (1, 3), "fault_rate": 0.08},
 }
 
@@ -90,6 +90,7 @@ class Gen:
         self.sid = 0
         self.queue = []
         self.ops = {}  # name -> spec (pool)
+        self.retired = set()  # names whose Operation object goes by another name now (mut_op)
         self.next_env = 0
         self.next_custom = 0
         self.next_ce = 0
@@ -146,7 +147,7 @@ class Gen:
 
     def _new_op(self, spec):
         for k, v in self.ops.items():
-            if v == spec:
+            if v == spec and k not in self.retired:
                 return k
         name = f"op{self.next_op}"
         self.next_op += 1
@@ -164,6 +165,10 @@ class Gen:
                 scen = rng.choice(["bs2", "mz", "mz"])
             if self.prof.get("fock_bias") and not self.prof.get("optics") and c == 0 and rng.random() < 0.3:
                 scen = "cancel"
+            if self.prof.get("equal_values") and c == 0 and rng.random() < 0.25:
+                scen = "equalmeasure"
+            if (self.prof.get("reuse") or self.prof.get("fock_bias")) and not self.prof.get("no_estimator") and c == 0 and rng.random() < 0.08:
+                scen = "rephase"
             if c == 0 and self.prof.get("scenario"):
                 scen = self.prof["scenario"]
             elif c == 0 and rng.random() < self.prof.get("wide_rate", 0.0):
@@ -252,6 +257,74 @@ class Gen:
             q.append({"do": "trace_out", "entry": "ce", "ce": ce["name"], "on": [P[-2], P[0]], "client": c})
             q.append({"do": "measure", "entry": "ce", "ce": ce["name"], "on": [P[k]], "sep": True, "destr": True, "client": c})
             q.append(op({"t": "P.RY", "theta": th}, "ce", [P[0]], ce=ce["name"]))
+        elif scen == "rephase":
+            # one Operation object applied to inputs that differ only in their relative phases
+            # (|+b> and |-b>): whatever an operation remembers about an earlier input must not matter
+            a, b = self._new_env(c, fock=0), self._new_env(c, fock=0)
+            a.pop("dims", None)
+            b.pop("dims", None)
+            al = rng.choice([x for x in ALPHAS if 0.2 < abs(complex(*x)) < 1.0])
+            D = {"t": rng.choice(["F.Displace", "F.Displace", "F.Squeeze"]), "re": al[0], "im": al[1]}
+            if D["t"] == "F.Squeeze":
+                z = rng.choice([x for x in ZETAS if abs(complex(*x)) > 0.1])
+                D["re"], D["im"] = z
+            q += [a, b]
+            fa, fb = a["name"] + ".f", b["name"] + ".f"
+            q.append(op(D, "state", [fa]))
+            q.append(op(D, "state", [fb]))
+            q.append(op({"t": "F.PhaseShift", "phi": round(PI, 9) if D["t"] == "F.Displace" else round(PI / 2, 9)}, "state", [fa]))
+            q.append(op(D, "state", [fa]))
+            q.append(op(D, "state", [fb]))
+        elif scen == "recombine":
+            # life cycle of one envelope: combined, absorbed into a composite product space, measured
+            # without being destroyed (members come back as labels), one member made mixed, combined
+            # again - whatever the envelope remembered from its first product state is stale by then
+            a, b = self._new_env(c), self._new_env(c)
+            ce = self._new_ce(c, [a["name"], b["name"]])
+            q += [a, b, ce]
+            ap, af, bp = a["name"] + ".p", a["name"] + ".f", b["name"] + ".p"
+            q.append(op({"t": "P.RY", "theta": th}, "state", [ap]))
+            q.append({"do": "env.combine", "env": a["name"], "client": c})
+            if rng.random() < 0.5:
+                q.append({"do": "env.expand", "env": a["name"], "client": c})
+            q.append(op({"t": "X.CX"}, "ce", [ap, bp], ce=ce["name"]))
+            q.append({"do": "measure", "entry": rng.choice(["ce", "state"]), "ce": ce["name"], "on": [ap], "sep": False, "destr": False, "client": c})
+            how = rng.choice(["kraus", "expand", "povm"])
+            tgt = rng.choice([ap, af])
+            if how == "kraus" and tgt == ap:
+                q.append({"do": "kraus", "entry": "state", "ch": {"family": "depol", "p": round(rng.uniform(0.1, 0.9), 4)}, "on": [ap], "client": c})
+            elif how == "povm" and tgt == ap:
+                q.append({"do": "povm", "entry": "state", "m": {"family": "unsharp", "eta": round(rng.uniform(0.2, 0.8), 4)}, "on": [ap], "destr": False, "partial": True, "client": c})
+            else:
+                q.append({"do": "sub.expand", "sub": tgt, "client": c})
+                q.append({"do": "sub.expand", "sub": tgt, "client": c})
+            end = rng.choice(["combine", "kraus2", "trace2"])
+            if end == "combine":
+                q.append({"do": "env.combine", "env": a["name"], "client": c})
+            elif end == "kraus2":
+                q.append({"do": "kraus", "entry": "env", "env": a["name"], "ch": {"family": "dilation", "n": 2, "seed": rng.randint(1, 40)}, "on": [af, ap], "client": c})
+            else:
+                q.append({"do": "trace_out", "entry": "env", "env": a["name"], "on": [ap, af], "client": c})
+        elif scen == "equalmeasure":
+            # several Fock spaces holding the SAME number, stored in different ways (label in the object,
+            # combined inside its envelope, partner of a polarization in a composite product space), then
+            # one multi-operand measurement: every place that finds "its" Fock by value goes wrong here
+            nlab = rng.choice([0, 1, 1, 2])
+            es = [self._new_env(c, fock=nlab) for _ in range(3)]
+            for e in es:
+                e.pop("dims", None)
+            ce = self._new_ce(c, [e["name"] for e in es])
+            q += es + [ce]
+            A, B, C = (e["name"] for e in es)
+            if rng.random() < 0.6:
+                q.append(op({"t": "P.RY", "theta": th}, "state", [A + ".p"]))
+            if rng.random() < 0.8:
+                q.append({"do": "env.combine", "env": A, "client": c})
+            q.append(op({"t": "P.RY", "theta": round(th / 2, 6)}, "state", [B + ".p"]))
+            q.append(op({"t": "X.CX"}, "ce", [B + ".p", C + ".p"], ce=ce["name"]))
+            pool = [B + ".p", A + ".p", A + ".f", B + ".f", C + ".p", C + ".f"]
+            on = rng.sample(pool, rng.choice([2, 2, 3]))
+            q.append({"do": "measure", "entry": "ce", "ce": ce["name"], "on": on, "sep": False, "destr": rng.random() < 0.4, "style": rng.choice(["kw", "min"]), "client": c})
         elif scen == "weaknoise":
             # weak noise on one photon of an entangled pure state: purity deficits around the
             # library's "is it pure" tolerances
@@ -267,6 +340,8 @@ class Gen:
                 ch = {"family": rng.choice(["phaseflip", "bitflip", "depol"]), "p": round(10 ** rng.uniform(-7.5, -3.5), 12)}
                 ent = rng.choice(["state", "ce"])
                 q.append({"do": "kraus", "entry": ent, "ce": ce["name"], "ch": ch, "on": [t], "client": c})
+            if rng.random() < 0.5:
+                q.append({"do": "ps.contract", "sub": es[0]["name"] + ".p", "ce": ce["name"], "tol": rng.choice([1e-5, 1e-4, 1e-3]), "client": c})
         elif scen == "mz":
             a, b = self._new_env(c, fock=1, pol="H", dims=0), self._new_env(c, fock=0, pol="H", dims=0)
             ce = self._new_ce(c, [a["name"], b["name"]])
@@ -433,6 +508,21 @@ class Gen:
             return 10**9
         return D
 
+    def _u3(self):
+        rng = self.rng
+        if rng.random() < 0.35:
+            # a coarse grid: the same values turn up again, in other roles and in another keyword order
+            grid = [0.0, round(PI / 2, 9), round(PI, 9), round(-PI / 2, 9), round(PI / 4, 9), 1, 0.3]
+            vals = [rng.choice(grid) for _ in range(3)]
+        else:
+            vals = [self.angle(), self.angle(), self.angle()]
+        spec = {"t": "P.U3", "phi": vals[0], "theta": vals[1], "omega": vals[2]}
+        if rng.random() < 0.4:
+            kw = ["phi", "theta", "omega"]
+            rng.shuffle(kw)
+            spec["kw"] = kw
+        return spec
+
     def _intperm(self, spec):
         # now and then the user operator is a 0/1 permutation matrix, written with an integer dtype
         if self.rng.random() < 0.2:
@@ -449,6 +539,8 @@ class Gen:
         # boundary values are legal parameters too (identity rotations, exact swaps, sign flips)
         if self.rng.random() < 0.06:
             return self.tiny()
+        if self.rng.random() < 0.05:
+            return self.rng.choice([-3, -2, -1, 0, 1, 2, 3])  # a Python int, as a user would write phi=1
         if self.rng.random() < 0.15:
             return round(self.rng.choice([0.0, PI / 2, PI, -PI / 2, 2 * PI, PI / 4, -PI, 3 * PI, 4 * PI]), 9)
         return round(self.rng.uniform(-4 * PI, 4 * PI), 6)
@@ -467,7 +559,7 @@ class Gen:
             if c < 0.7:
                 return {"t": "P." + rng.choice(["RX", "RY", "RZ"]), "theta": self.angle()}
             if c < 0.88:
-                return {"t": "P.U3", "phi": self.angle(), "theta": self.angle(), "omega": self.angle()}
+                return self._u3()
             return self._intperm({"t": "P.Custom", "u": "haar", "seed": rng.randint(1, 30)})
         if k == "C":
             d = pre.sub[sub]["dims"]
@@ -527,7 +619,7 @@ class Gen:
         sub = rng.choice(subs)
         if self.prof.get("reuse") or rng.random() < 0.5:
             # reuse a pooled operation of the right kind
-            cands = [k for k, v in self.ops.items() if specs.operand_kinds(v) == [world.kind(sub)] and self._reuse_ok(v, pre, sub)]
+            cands = [k for k, v in self.ops.items() if k not in self.retired and specs.operand_kinds(v) == [world.kind(sub)] and self._reuse_ok(v, pre, sub)]
             if cands and rng.random() < 0.6:
                 name = rng.choice(cands)
                 entry, extra = self._entry_for(world, pre, sub)
@@ -566,7 +658,7 @@ class Gen:
         if not opts:
             return None
         # reuse a pooled composite operation on (possibly other) operands of the right kinds
-        pooled = [k for k, v in self.ops.items() if v["t"].startswith("X.")]
+        pooled = [k for k, v in self.ops.items() if v["t"].startswith("X.") and k not in self.retired]
         if pooled and rng.random() < (0.6 if self.prof.get("reuse") else 0.3):
             name = rng.choice(pooled)
             kinds = specs.operand_kinds(self.ops[name])
@@ -754,15 +846,23 @@ class Gen:
         envs = [e for e in self.client_envs.get(client, []) if e in world.envs and not pre.env[e]["measured"]]
         subs = self._subs(world, pre, client)
         hs = self._handles(world, client)
-        kinds = ["env.combine", "env.reorder", "env.expand", "env.contract", "sub.expand", "sub.expand", "sub.contract", "ce.combine", "ce.combine", "ce.reorder", "ce.expand"]
+        kinds = ["env.combine", "env.reorder", "env.expand", "env.contract", "sub.expand", "sub.expand", "sub.contract", "ce.combine", "ce.combine", "ce.reorder", "ce.expand", "ps.contract"]
         if self.prof.get("struct_bias") == "level":
-            kinds += ["sub.expand", "sub.contract", "env.expand", "env.contract", "ce.expand"] * 2
+            kinds += ["sub.expand", "sub.contract", "env.expand", "env.contract", "ce.expand", "ps.contract"] * 2
         k = rng.choice(kinds)
+        # the tolerance of an explicit contraction is the caller's choice
+        tolkw = {"tol": rng.choice([1e-6, 1e-5, 1e-4, 1e-3])} if k.endswith(".contract") and rng.random() < 0.4 else {}
+        if k == "ps.contract":
+            inps = [n for n in subs if pre.block_of(n) is not None and pre.block_of(n).kind == "ps" and world.ce_of.get(n.split(".")[0])]
+            if not inps:
+                return None
+            n = rng.choice(inps)
+            return {"do": k, "sub": n, "ce": world.ce_of[n.split(".")[0]], **tolkw}
         if k.startswith("env."):
             if not envs:
                 return None
             e = rng.choice(envs)
-            r = {"do": k, "env": e}
+            r = {"do": k, "env": e, **tolkw}
             if k == "env.reorder":
                 on = [e + ".f", e + ".p"]
                 rng.shuffle(on)
@@ -771,7 +871,7 @@ class Gen:
         if k.startswith("sub."):
             if not subs:
                 return None
-            return {"do": k, "sub": rng.choice(subs)}
+            return {"do": k, "sub": rng.choice(subs), **tolkw}
         if not hs:
             return None
         h = rng.choice(hs)
@@ -861,6 +961,24 @@ class Gen:
 
     def _mk_op(self, world, pre, client):
         rng = self.rng
+        scan = [n for n, (o, sp) in world.ops.items() if sp.get("t") in ("P.RX", "P.RY", "P.RZ", "P.U3", "F.PhaseShift", "F.Displace", "F.Squeeze", "X.BS") and n in self.ops and n not in self.retired]
+        if scan and rng.random() < 0.45:
+            # parameter scan: the same Operation object with another value
+            name = rng.choice(sorted(scan))
+            spec = dict(self.ops[name])
+            if spec["t"] in ("F.Displace", "F.Squeeze"):
+                v = rng.choice(ALPHAS if spec["t"] == "F.Displace" else ZETAS)
+                spec["re"], spec["im"] = v
+            else:
+                k = rng.choice([k for k in ("theta", "phi", "omega", "eta") if k in spec])
+                spec[k] = self.angle()
+            if spec == self.ops[name]:
+                return None
+            self.retired.add(name)  # the object is known under the new name from here on
+            new = f"op{self.next_op}"  # always a new name: the pool may hold an equal spec for ANOTHER object
+            self.next_op += 1
+            self.ops[new] = spec
+            return {"do": "mut_op", "op": name, "as": new}
         c = rng.random()
         if c < 0.5:
             kinds = rng.choice([["F", "F"], ["F", "P"], ["P", "F"], ["P", "P"]])
@@ -937,6 +1055,16 @@ class Gen:
             on = [sub]
             if entry == "env" and rng.random() < 0.3 and actions._live(pre, world.partner(sub)):
                 on.append(world.partner(sub))
+            if entry == "ce" and rng.random() < 0.5:
+                # a second operand, preferably held somewhere else (a refused request joins nothing)
+                cand = [n for n in self._class_subs(world, pre, extra["ce"]) if n != sub and pre.sub[n]["dims"] > 0]
+                far = [n for n in cand if pre.block_of(n) is not pre.block_of(sub)]
+                pick = far or cand
+                if pick:
+                    o = rng.choice(pick)
+                    if pre.sub[sub]["dims"] > 0 and pre.sub[sub]["dims"] * pre.sub[o]["dims"] <= 32:
+                        on.append(o)
+                        rng.shuffle(on)
             r = {"do": "fault", "kind": k, "on": on, "entry": entry, "seed": rng.randint(1, 20), **extra}
             if k == "kraus_not_tp":
                 r["how"] = rng.choice(["scale", "drop", "imag", "offdiag", "diag1"])
@@ -1015,4 +1143,4 @@ class Gen:
         return None
 
 
-SCENARIOS = ["bell", "ghz", "bs2", "mz", "envcomb", "two_ps", "merged", "mixed_custom", "cancel", "weaknoise"]
+SCENARIOS = ["bell", "ghz", "bs2", "mz", "envcomb", "two_ps", "merged", "mixed_custom", "cancel", "weaknoise", "recombine", "equalmeasure"]
